@@ -30,7 +30,7 @@ for ID in $IDS; do
     echo "$ID: BUILD-FAILED" | tee -a $S/results.txt; continue
   fi
   BIN=""
-  case " $PROPS " in *" C20 "*|*" C17 "*)
+  case " $PROPS " in *" C20 "*|*" C17 "*|*" C06 "*)
     ( cd $S/repo && cargo build --offline --bin simplesl --target-dir $S/repo-bin >>$S/build.log 2>&1 ) && BIN=$S/repo-bin/debug/simplesl ;;
   esac
   for P in $PROPS; do
